@@ -139,6 +139,13 @@ EXT_HAND = [
     {"spec": "spec: exists X (q(X) and (p(X) <-> X > 0)).", "right": "p(X) :- q(X), X > 0.", "ug": UG0},
     {"spec": "spec: (exists X q(X)) <-> (exists X p(X)).", "right": "p(X) :- q(X), X > 0.", "ug": UG0},
     {"spec": "spec: not forall X (p(X) <-> q(X)).", "right": "p(X) :- q(X), X != 0.", "ug": UG0},
+    # the same public rule over a shared private predicate that the two sides define differently
+    {"left": "aux(X) :- q(X), X > 0. p(X) :- aux(X).", "right": "aux(X) :- q(X), X > 1. p(X) :- aux(X).", "ug": UG0},
+    {"left": "s :- q(1). p(X) :- q(X), not s. :- s, q(2).", "right": "s :- q(0). p(X) :- q(X), not s. :- s, q(2).", "ug": UG0},
+    # placeholders of sort symbol
+    {"left": "p(X) :- q(X), X = c.", "right": "p(X) :- q(X), X = c, c != a.", "ug": UG0 + " input: c -> symbol."},
+    {"left": "p(X) :- q(X), X != c.", "right": "p(X) :- q(X), X != c, X != a.", "ug": UG0 + " input: c -> symbol."},
+    {"spec": "spec: forall X (p(X) <-> q(X) and c$s = a).", "right": "p(X) :- q(X), c = a.", "ug": UG0 + " input: c -> symbol."},
     # equivalences in negative positions
     {"spec": "spec: forall X ((p(X) <-> q(X)) -> q(X)).", "right": "p(X) :- q(X + 1).", "ug": UG0},
     {"spec": "spec: (a <-> b) -> c.", "right": "c :- a, b. c :- not a, not b.", "ug": "input: a/0. input: b/0. output: c/0."},
